@@ -77,7 +77,7 @@ def run_case(sc, idx, keys, env, plan=None, ext_sigint_after=None, timeout=40, c
         except OSError:
             pass
         r = common.Run(p.returncode, got, open(os.path.join(d, "stderr.txt"), "rb").read(), time.time() - t0, events, timed_out)
-    elif ext_sigint_after is None:
+    elif ext_sigint_after is None and not env.get("VERIF_STDERR"):
         r = common.run_s4(["--color", "never"] + argv, cwd=d, env=env, plan=plan, trace=True, tmpdir=tmp,
                           timeout=timeout)
     else:
@@ -86,12 +86,16 @@ def run_case(sc, idx, keys, env, plan=None, ext_sigint_after=None, timeout=40, c
              "S4_VERIF_TRACE": os.path.join(d, "trace.ndjson")}
         e.update(env)
         t0 = time.time()
+        # (VERIF_STDERR: standard error is a device that cannot be written to -- /dev/full -- while the signal is handled)
+        ferr_ = open(env["VERIF_STDERR"], "wb") if env.get("VERIF_STDERR") else subprocess.PIPE
         p = subprocess.Popen([common.S4_BIN, "-t", "+00:00", "--color", "never"] + argv, cwd=d, env=e,
-                             stdout=subprocess.PIPE, stderr=subprocess.PIPE)
-        time.sleep(ext_sigint_after)
+                             stdout=subprocess.PIPE, stderr=ferr_)
+        if ext_sigint_after is not None:
+            time.sleep(ext_sigint_after)
         t_sig = time.time()
         try:
-            p.send_signal(signal.SIGINT)
+            if ext_sigint_after is not None:
+                p.send_signal(signal.SIGINT)
             if env.get("VERIF_SECOND_SIGINT_MS"):
                 # an impatient second Ctrl-C while the first is being handled
                 time.sleep(int(env["VERIF_SECOND_SIGINT_MS"]) / 1000.0)
@@ -115,7 +119,9 @@ def run_case(sc, idx, keys, env, plan=None, ext_sigint_after=None, timeout=40, c
                     pass
         except OSError:
             pass
-        r = common.Run(p.returncode, out, err, time.time() - t0, events, timed_out)
+        if ferr_ is not subprocess.PIPE:
+            ferr_.close()
+        r = common.Run(p.returncode, out, err or b"", time.time() - t0, events, timed_out)
     t_end = time.time()
     left = sorted(os.listdir(tmp))
     res = {"keys": keys, "argv": argv, "env": env, "plan": plan, "ext_sigint_after": ext_sigint_after, "rc": r.rc,
@@ -281,6 +287,12 @@ def run(pid, tier, seed):
                     jobs.append((keys, {"S4_VERIF_SIGINT": "%s:%s:%d" % (t, g, k),
                                         "S4_VERIF_HOLD": "%s:%s:%d:150" % (t, g, k)}, None, None,
                                  "sigint+hold:%s:%s" % (t[0], g)))
+        # (b') the same while standard error cannot be written to (2>/dev/full: a full disk behind a redirected stderr):
+        #      whatever the program has to say on the way out, the files still go
+        for keys in combos[: (2 if tier == "quick" else len(combos))]:
+            jobs.append((keys, {"VERIF_STDERR": "/dev/full"}, None, None, "stderr-full:normal"))
+            for trig in ("w0:SendDone:0", "main:Recv:2", "w0:TempRegister:0"):
+                jobs.append((keys, {"S4_VERIF_SIGINT": trig, "VERIF_STDERR": "/dev/full"}, None, None, "stderr-full:sigint:" + trig.split(":")[1]))
         # (c) orders taken from the model's counterexamples: signal while another worker has created its
         #     file but not yet registered it; signal before a late worker creates its file
         for keys in [c for c in combos if len(c) >= 2][: (2 if tier == "quick" else 5)] * (2 if tier == "quick" else 4):
@@ -379,7 +391,7 @@ def run(pid, tier, seed):
         for res in results:
             label = res["label"]
             distinct.add((tuple(res["keys"]), label, str(sorted(res["env"].items()))))
-            sigint = label.startswith("sigint") or label.startswith("plan")
+            sigint = label.startswith("sigint") or label.startswith("plan") or label.startswith("stderr-full:sigint")
             rec = {"kind": "c18", "keys": res["keys"], "env": res["env"], "label": label,
                    "ext_sigint_after": res["ext_sigint_after"], "close_after": res.get("close_after"), "leftover": res["leftover"], "rc": res["rc"],
                    "stderr": res["stderr"], "trace": res["trace"][:300]}
@@ -390,7 +402,7 @@ def run(pid, tier, seed):
                 rep.violation(classify(res), "temp file(s) %s left in TMPDIR after exit (%s)" % (res["leftover"], label), rec)
             if res["rc"] not in (0, 1, -2, 130):
                 rep.violation("exit-status:%s" % label.split(":")[0], "exit status %s (%s)" % (res["rc"], label), rec)
-            if not sigint and not label.startswith("epipe") and res["rc"] != 0:
+            if not sigint and not label.startswith("epipe") and not label.startswith("stderr-full") and res["rc"] != 0:
                 rep.violation("exit-status:normal", "normal run exit status %s" % res["rc"], rec)
             lat = res["sig_to_exit"]
             if lat is None and sigint:
